@@ -459,7 +459,8 @@ class Repo:
         for cls in self.classes.values():
             for d in cls.decorators:
                 if isinstance(d, ast.Call) and unparse(d.func) == decorator_name:
-                    key = self.fold(d.args[0], cls.mod) if d.args else None
+                    arg0 = d.args[0] if d.args else (d.keywords[0].value if len(d.keywords) == 1 else None)
+                    key = self.fold(arg0, cls.mod) if arg0 is not None else None
                     out[key] = cls
                 elif isinstance(d, ast.Name) and d.id == decorator_name:
                     out[cls.qual] = cls
